@@ -227,3 +227,35 @@ fn c18_rimt_oversize_devices_refused() {
         panic!("platform device of {} bytes returned with length field {}", b.len(), le16_at(&b, 2));
     }
 }
+
+#[test]
+fn c01_viot_checksum_after_256_nodes() {
+    use acpi_tables::viot::*;
+    let mut t = VIOT::new(*b"FOOBAR", *b"DECAFCOF", 1);
+    check_table("VIOT(new)", &ser(&t));
+    for i in 0..260u32 {
+        t.add_virtio_mmio_iommu(VirtIoMmioIommu::new(0x1000 * i as u64));
+        let b = ser(&t);
+        check_table(&format!("VIOT after {} adds", i + 1), &b);
+        assert_eq!(le16_at(&b, 36) as u32, i + 1, "node count");
+    }
+}
+#[test]
+fn c18_viot_offsets_beyond_16_bits_refused() {
+    use acpi_tables::viot::*;
+    // 48 + 4096 * 16 = 65584 > 65535: node offsets (and handles) are 16-bit
+    let r = refuses(|| {
+        let mut t = VIOT::new(*b"FOOBAR", *b"DECAFCOF", 1);
+        for i in 0..4096u64 {
+            t.add_virtio_mmio_iommu(VirtIoMmioIommu::new(i));
+        }
+        let h = t.add_virtio_mmio_iommu(VirtIoMmioIommu::new(0xabcd));
+        t.add_mmio_endpoint(MmioEndpoint::new(1, 2, &h));
+        ser(&t)
+    });
+    if let Err(b) = r {
+        let n = le16_at(&b, 36);
+        let out = le16_at(&b, b.len() - 24 + 16);
+        panic!("VIOT of {} bytes returned: node count field {}, last endpoint's output node offset {} (true offset {})", b.len(), n, out, 48 + 4096 * 16);
+    }
+}
